@@ -13,9 +13,12 @@ F == INSTANCE BlockFns
 H == INSTANCE Hdlc
 
 Flatten(pkts) == F!Concat([i \in 1 .. Len(pkts) |-> <<-1>> \o pkts[i]])
+(* a packet given as length and fill byte *)
+PktBytes(len, fill) == [i \in 1 .. len |-> (fill + ((i - 1) % 7)) % 256]
 Apply(kind, p, ins) ==
   CASE kind \in {"src_u8", "src_big", "src_f", "src_c"} -> << p.data >>
     [] kind \in {"fftfiltf", "fftfiltc"} -> F!FftFiltFn(p, ins)
+    [] kind = "src_pkt" -> << Flatten([k \in 1 .. Len(p.pkts) |-> PktBytes(p.pkts[k][1], p.pkts[k][2])]) >>
     [] kind = "firf" -> F!FirFn(p, ins)
     [] kind = "addconst" -> F!Lin([coef |-> <<<<1>>>>, const |-> <<p.val>>], ins)
     [] kind = "add" -> F!Lin([coef |-> <<<<1, 1>>>>, const |-> <<0>>], ins)
